@@ -27,6 +27,9 @@ def plan(tier, seed):
     byname = {sp["name"]: sp for sp in specs}
     if 'synth-0' in byname:
         specs.append(common.under_O(byname['synth-0'], **{}))
+    # converged runs whose LAST round began with a repopulation (forced history: the labelling with an under-populated cluster comes
+    # back unchanged after the refill, so the run converges on it while the clusters' stored means are those of the refilled labelling)
+    specs.append(dict(name="lastrepop", mode="interp", what="lastrepop", n=4 if tier == "quick" else 16, seed=[seed, 1717, 0]))
     return specs
 
 
@@ -145,8 +148,22 @@ def run_synth(spec, res):
             res.sample({k: v for k, v in case.items()})
 
 
+def run_lastrepop(spec, res):
+    from ticcmon.checks import c09
+    cases = []
+    for j in range(spec["n"]):
+        K = 3 + j % 2
+        c = c09.scripted_case(("E", "E"), 5, 1000 * int(spec["seed"][0]) + 17 + j, T=48 + 8 * (j % 4), N=1 + j % 2, W=1 + (j // 2) % 2, K=K)
+        c["m"] = 2 + j % 3
+        cases.append(c)
+    e2e_check.run_cases(res, cases, PROPS, nontrivial, coverage_props=())
+    res.count("converged_runs_with_a_repopulation_in_their_last_round", len(cases))
+
+
 def run_shard(spec, res):
-    if spec["what"] == "synth":
+    if spec["what"] == "lastrepop":
+        run_lastrepop(spec, res)
+    elif spec["what"] == "synth":
         run_synth(spec, res)
     else:
         ec.run_e2e_shard(spec, res, PROPS, nontrivial)
@@ -161,6 +178,8 @@ def replay(case, res):
 
 def finalize(merged, tier):
     out = {"inconclusive": []}
+    if merged["counters"].get("converged_runs_with_a_repopulation_in_their_last_round", 0) < 4:
+        out["inconclusive"].append("fewer than 4 converged runs had a repopulation in their last round")
     if merged["counters"].get("states_with_tight_well_separated_clusters", 0) < (10 if tier == "quick" else 100):
         out["inconclusive"].append("only %d synthetic states with tight, well separated clusters" % merged["counters"].get("states_with_tight_well_separated_clusters", 0))
     ec.min_counter(merged, out, "ch_checked", 40 if tier == "quick" else 400)
